@@ -7,6 +7,10 @@ T1 (generated obligation): props/C13/harness/extract (go/ast) reads collect.go, 
    covers_now_modulo_known, checked by coqc each run; kinds still recorded as known findings are added
    first - none since the four C13 fixes), and the extracted kinds must be exactly
    Model.tree_manifest true (Lemma gen_manifest_is_tree_manifest).
+T1b (module policy): the source text of collect.go moduleVersion is compiled against a stand-in of packages.Module and
+   RUN on the module shapes of Model.modst (main, workspace, module cache, replaced by a directory, replaced by a versioned
+   path); the results must be Model.module_version false (Lemma module_version_policy_now: a version exactly for immutable
+   modules - a dependency replaced by a local directory is recorded by content fingerprint).
 E  (property oracle): edit histories over a generated 4-package module (main -> a -> b -> c) with a
    private cache directory per history: build, edit ONE input, rebuild with the warm cache, and
    compare the program's behaviour with a clean build (no cache entry of the module) of the same
@@ -14,6 +18,10 @@ E  (property oracle): edit histories over a generated 4-package module (main -> 
    Correspondence: for every history the model (Coq, vm_compute, structural digest + most
    discriminating compiler) predicts stale / not stale from the generated manifest kinds; the
    prediction must agree with what the real llgo did.
+   A second scenario has two modules (example.com/app: main -> app/mid, example.com/lib required at v1.0.0 and replaced by
+   ../lib; thorough tier also: replaced by a versioned module served from a file:// proxy): edit lib's Go file / C file /
+   embedded file; besides the behaviour oracle, every importer of the edited mutable package must be a CACHE MISS
+   (theorem mutable_dep_edit_changes_importers), compared with Model.refingerprints.
    Determinism: the per-package IR of repeated clean builds must be byte-identical."""
 import os, re, json, shutil, hashlib, time
 from concurrent.futures import ThreadPoolExecutor
@@ -189,7 +197,10 @@ func Report() {
     return files, v
 
 
-def sub_in_file(path, old, new, keep_stat=False, bump_ns=None):
+OLD_MTIME_NS = 1577836800 * 10**9   # 2020-01-01T00:00:00Z
+
+
+def sub_in_file(path, old, new, keep_stat=False, bump_ns=None, set_mtime_ns=None):
     """keep_stat: restore size-preserving edit's mtime exactly; bump_ns: set mtime to old mtime + bump_ns (boundary:
     an edit in the same second / microsecond as the previous write)"""
     st = os.stat(path)
@@ -200,6 +211,8 @@ def sub_in_file(path, old, new, keep_stat=False, bump_ns=None):
     if keep_stat:
         assert len(s2.encode()) == len(s.encode())
         os.utime(path, ns=(st.st_atime_ns, st.st_mtime_ns))
+    elif set_mtime_ns:
+        os.utime(path, ns=(st.st_atime_ns, set_mtime_ns))
     elif bump_ns:
         assert len(s2.encode()) == len(s.encode())
         os.utime(path, ns=(st.st_atime_ns, st.st_mtime_ns + bump_ns))
@@ -209,6 +222,133 @@ def sub_in_file(path, old, new, keep_stat=False, bump_ns=None):
         st2 = os.stat(path)
         if st2.st_mtime_ns == st.st_mtime_ns:
             os.utime(path, ns=(st2.st_atime_ns, st.st_mtime_ns + 1000000))
+
+
+# ------------------------------------------------------------------ moduleVersion: the real function on the model's module shapes
+MODVER_CASES = [  # name, Go literal, Coq modst, version table
+    ("nil", "nil", None),
+    ("main", '&Module{Path: "example.com/app", Main: true, Dir: "/w/app"}', "MMain"),
+    ("workspace", '&Module{Path: "example.com/ws", Dir: "/w/ws"}', "MMain"),
+    ("cache", '&Module{Path: "example.com/dep", Version: "v1.2.3", Dir: "/mc/dep@v1.2.3"}', "(MCache 7)"),
+    ("repldir", '&Module{Path: "example.com/lib", Version: "v1.0.0", Replace: &Module{Path: "../lib", Dir: "/w/lib"}}', "(MReplDir 5)"),
+    ("replver", '&Module{Path: "example.com/lib", Version: "v1.0.0", Replace: &Module{Path: "example.com/fork", Version: "v2.0.0", Dir: "/mc/fork@v2.0.0"}}', "(MReplVer 5 9)"),
+    ("replsame", '&Module{Path: "example.com/lib", Version: "v1.0.0", Replace: &Module{Path: "example.com/lib", Version: "v1.0.1"}}', "(MReplVer 5 6)"),
+]
+VERNUM = {"": None, "v1.2.3": 7, "v1.0.0": 5, "v2.0.0": 9, "v1.0.1": 6}
+
+
+def run_module_version(ck, F):
+    """compile the source text of collect.go moduleVersion (module type replaced by a stand-in with the fields of
+    golang.org/x/tools/go/packages.Module) and run it on the module shapes of Model.modst"""
+    src = F.get("module_version_src") or ""
+    d = os.path.join(ck.work, "modver")
+    os.makedirs(d, exist_ok=True)
+    prog = ('package main\n\nimport (\n\t"encoding/json"\n\t"os"\n\t"time"\n)\n\n'
+            'type ModuleError struct{ Err string }\n'
+            'type Module struct {\n\tPath, Version string\n\tReplace *Module\n\tTime *time.Time\n\tMain, Indirect bool\n'
+            '\tDir, GoMod, GoVersion string\n\tError *ModuleError\n}\n\n' + src + '\n\nfunc main() {\n\tout := map[string]string{}\n')
+    for name, lit, _ in MODVER_CASES:
+        prog += '\tout["%s"] = moduleVersion(%s)\n' % (name, lit)
+    prog += '\tjson.NewEncoder(os.Stdout).Encode(out)\n}\n'
+    open(os.path.join(d, "main.go"), "w").write(prog)
+    open(os.path.join(d, "go.mod"), "w").write("module c13modver\n\ngo 1.24\n")
+    rc, out = vlib.sh(["go", "run", "."], cwd=d, env=vlib.goenv(), timeout=600)
+    if rc != 0:
+        return None, out
+    try:
+        return json.loads(out.strip().splitlines()[-1]), ""
+    except Exception as ex:
+        return None, "%s: %s" % (ex, out[-600:])
+
+
+# ------------------------------------------------------------------ E: two modules, lib replaced by a local directory
+def gen_repl_modules(rng, embed=False):
+    v = {"limit": rng.randrange(10, 49), "label": "v%d" % rng.randrange(1, 9), "cbase": rng.randrange(100, 900),
+         "msg": "libmsg-%d" % rng.randrange(100, 999)}
+    v["embed_import"] = '\t_ "embed"\n' if embed else ""
+    v["embed_decl"] = "//go:embed data/msg.txt\nvar Msg string" if embed else 'var Msg = "not-embedded"'
+    files = {
+        "app/go.mod": "module example.com/app\n\ngo 1.24\n\nrequire example.com/lib v1.0.0\n\nreplace example.com/lib v1.0.0 => ../lib\n",
+        "app/main.go": 'package main\n\nimport "example.com/app/mid"\n\nfunc main() { mid.Report() }\n',
+        "app/mid/mid.go": ('package mid\n\nimport "example.com/lib"\n\n// constants of lib are folded into this package\n'
+                           'const Twice = lib.Limit * 2\n\nfunc Report() {\n\tprintln("limit", Twice, "label", "<"+lib.Label+">")\n'
+                           '\tprintln("side", lib.Side())\n\tprintln("msg", lib.Msg)\n}\n'),
+        "lib/go.mod": "module example.com/lib\n\ngo 1.24\n",
+        "lib/lib.go": ('package lib\n\nimport (\n%(embed_import)s\t_ "unsafe"\n)\n\nconst LLGoFiles = "_wrap/lib.c"\n\n'
+                       'const Limit = %(limit)d\nconst Label = "%(label)s"\n\n//go:linkname Side C.c13_lib_side\nfunc Side() int32\n\n'
+                       '%(embed_decl)s\n') % v,
+        "lib/data/msg.txt": v["msg"],
+        "lib/_wrap/lib.c": "int c13_lib_side(void) { return %(cbase)d; }\n" % v,
+    }
+    return files, v
+
+
+class random_like:
+    """replays the values already drawn (the embed flavour must have the same constants)"""
+    def __init__(self, rng, vals):
+        self.q = [vals["limit"], int(vals["label"][1:]), vals["cbase"], int(vals["msg"].split("-")[1])]
+
+    def randrange(self, a, b):
+        return self.q.pop(0)
+
+
+def write_tree(root, files):
+    for n, src in files.items():
+        p = os.path.join(root, n)
+        os.makedirs(os.path.dirname(p), exist_ok=True)
+        open(p, "w").write(src)
+
+
+FORK = "verif.invalid/c13fork"
+
+
+def make_fake_proxy(root, limits):
+    """a file:// GOPROXY holding module example.com/lib published under the path verif.invalid/c13fork at two versions"""
+    import zipfile
+    d = os.path.join(root, FORK, "@v")
+    os.makedirs(d, exist_ok=True)
+    for ver, lim in limits.items():
+        open(os.path.join(d, ver + ".info"), "w").write(json.dumps({"Version": ver, "Time": "2020-01-01T00:00:00Z"}))
+        open(os.path.join(d, ver + ".mod"), "w").write("module example.com/lib\n\ngo 1.24\n")
+        with zipfile.ZipFile(os.path.join(d, ver + ".zip"), "w") as z:
+            z.writestr("%s@%s/go.mod" % (FORK, ver), "module example.com/lib\n\ngo 1.24\n")
+            z.writestr("%s@%s/lib.go" % (FORK, ver), 'package lib\n\nconst Limit = %d\nconst Label = "fork"\n\nvar Msg = "fork"\n\n'
+                       'func Side() int32 { return 1 }\n' % lim)
+    open(os.path.join(d, "list"), "w").write("\n".join(limits) + "\n")
+
+
+def repl_histories(rv, tier):
+    B = ("build",)
+
+    def ed(rel, old, new):
+        def f(d, cfg):
+            sub_in_file(os.path.join(d, "..", rel), old, new)
+            return cfg
+        return ("edit", "%s: %r -> %r" % (rel, old, new), f)
+    imp = ["example.com/app/mid"]
+    hs = {}
+    hs["repl-dir-go-file"] = dict(kind="KDeps", repl=True, must_miss=imp, key="cache-stale-dir-replaced-dep", module="e2e_repl_module",
+                                  steps=[B, ed("lib/lib.go", "const Limit = %d" % rv["limit"], "const Limit = %d" % (rv["limit"] + 50)), B],
+                                  model="[Build; EditPkg 2 KGoFiles 1; Build]", edit="EditPkg 2 KGoFiles 1", importer=1)
+    if tier != "quick":
+        hs["repl-dir-c-file"] = dict(kind="KDeps", repl=True, must_miss=imp, key="cache-stale-dir-replaced-dep", module="e2e_repl_module",
+                                     steps=[B, ed("lib/_wrap/lib.c", "return %d" % rv["cbase"], "return %d" % (rv["cbase"] + 7)), B],
+                                     model="[Build; EditPkg 2 KSideCFiles 1; Build]", edit="EditPkg 2 KSideCFiles 1", importer=1, output_blind=True)
+        hs["repl-dir-embed-file"] = dict(kind="KDeps", repl=True, embed=True, must_miss=imp, key="cache-stale-dir-replaced-dep", module="e2e_repl_module",
+                                         steps=[B, ed("lib/data/msg.txt", rv["msg"], rv["msg"] + "-edited"), B],
+                                         model="[Build; EditPkg 2 KEmbedFiles 1; Build]", edit="EditPkg 2 KEmbedFiles 1", importer=1, output_blind=True)
+        # lib replaced by another module path at a version (module cache, immutable): switching the version in go.mod
+        # must re-fingerprint the importer (moduleVersion returns Replace.Version)
+        def switch(d, cfg):
+            sub_in_file(os.path.join(d, "go.mod"), FORK + " v1.2.0", FORK + " v1.3.0")
+            return cfg
+        hs["repl-version-switch"] = dict(kind="KDeps", repl=True, replver=True, must_miss=imp, key="cache-stale-versioned-replace", model=None,
+                                         steps=[B, ("edit", "app/go.mod: replace example.com/lib => %s v1.2.0 -> v1.3.0" % FORK, switch), B])
+        hs["repl-dir-label"] = dict(kind="KDeps", repl=True, must_miss=imp, key="cache-stale-dir-replaced-dep", module="e2e_repl_module",
+                                    steps=[B, ed("lib/lib.go", 'const Label = "%s"' % rv["label"], 'const Label = "%sx"' % rv["label"]), B, B],
+                                    model="[Build; EditPkg 2 KGoFiles 1; Build; Build]", edit="EditPkg 2 KGoFiles 1", importer=1)
+    return hs
+
 
 
 class Cfg:
@@ -237,12 +377,13 @@ def histories(v, tier):
     python steps: ("build",) | ("edit", description, fn(dir, cfg) -> cfg) | ("clear",)"""
     g = v["gosrc"]
 
-    def ed_file(rel, old, new, keep=False, bump=None):
+    def ed_file(rel, old, new, keep=False, bump=None, dated=None):
         def f(d, cfg):
-            sub_in_file(os.path.join(d, rel), old, new, keep, bump)
+            sub_in_file(os.path.join(d, rel), old, new, keep, bump, dated)
             return cfg
         return ("edit", "%s: %r -> %r%s" % (rel, old, new, " (size and mtime preserved)" if keep else
-                                           (" (same size, mtime + %d ns)" % bump if bump else "")), f)
+                                           (" (same size, mtime + %d ns)" % bump if bump else
+                                            (" (replaced by a revision whose mtime is 2020-01-01T00:00:00Z, as cp -p / tar x do)" if dated else ""))), f)
 
     def ed_cfg(what, **kw):
         return ("edit", what, lambda d, cfg: cfg.with_(**kw))
@@ -259,9 +400,15 @@ def histories(v, tier):
                            model="[Build; EditPkg 1 KRewrites 1; Build]")
     hs["embed-file"] = dict(kind="KEmbedFiles", embed=True, steps=[B, ed_file("a/data/msg.txt", v["msg"], v["msg"] + "-edited"), B],
                             model="[Build; EditPkg 1 KEmbedFiles 1; Build]")
+    # the C file is replaced by a revision that carries an OLDER mtime than anything the previous build wrote
+    # (a make-style "object newer than source" shortcut must not be taken)
     hs["llgofiles-c-file"] = dict(kind="KSideCFiles",
-                                  steps=[B, ed_file("a/_wrap/side.c", "return %d +" % v["cbase"], "return %d +" % (v["cbase"] + 7)), B],
+                                  steps=[B, ed_file("a/_wrap/side.c", "return %d +" % v["cbase"], "return %d +" % (v["cbase"] + 7), dated=OLD_MTIME_NS), B],
                                   model="[Build; EditPkg 1 KSideCFiles 1; Build]")
+    if tier != "quick":
+        hs["llgofiles-c-file-newer"] = dict(kind="KSideCFiles",
+                                            steps=[B, ed_file("a/_wrap/side.c", "return %d +" % v["cbase"], "return %d +" % (v["cbase"] + 9)), B],
+                                            model="[Build; EditPkg 1 KSideCFiles 1; Build]")
     hs["opt-level"] = dict(kind="KOptLevel", steps=[B, ed_cfg("-O0 -> -O1", opt="1"), B],
                            model="[Build; EditAll KOptLevel 1; Build]")
     hs["env-switch"] = dict(kind="KEnvListed", steps=[B, ed_cfg("LLGO_TRACE unset -> 1", env={"LLGO_TRACE": "1"}), B],
@@ -296,8 +443,9 @@ def histories(v, tier):
 
 
 class Runner:
-    def __init__(self, ck, L, drv, files, files_embed, seed_cache):
+    def __init__(self, ck, L, drv, files, files_embed, seed_cache, repl=None, repl_embed=None):
         self.ck, self.L, self.drv, self.files, self.files_embed, self.seed = ck, L, drv, files, files_embed, seed_cache
+        self.repl, self.repl_embed = repl, repl_embed
         self.nbuilds = 0
 
     def fresh_cache(self, path):
@@ -323,8 +471,8 @@ class Runner:
         else:
             extra = ["-v"] + (["-tags", cfg.tags] if cfg.tags else [])
             rc, log = self.L.build(d, out, opt="-O" + cfg.opt, extra_args=extra, env=env, timeout=1500)
-        hits = sorted(set(m.group(2) for m in re.finditer(r"^CACHE (HIT): (verifprog\S*)", log, re.M)))
-        miss = sorted(set(m.group(2) for m in re.finditer(r"^CACHE (MISS): (verifprog\S*)", log, re.M)))
+        hits = sorted(set(m.group(2) for m in re.finditer(r"^CACHE (HIT): ((?:verifprog|example\.com)\S*)", log, re.M)))
+        miss = sorted(set(m.group(2) for m in re.finditer(r"^CACHE (MISS): ((?:verifprog|example\.com)\S*)", log, re.M)))
         return rc, log, hits, miss
 
     def observe(self, binp):
@@ -334,13 +482,25 @@ class Runner:
         return {"rc": rc, "stderr": se, "stdout": so}
 
     def run_history(self, name, h):
-        d = os.path.join(self.ck.work, "hist", name, "src")
-        e2e.write_module(d, self.files_embed if h.get("embed") else self.files)
+        d = root = os.path.join(self.ck.work, "hist", name, "src")
+        if h.get("repl"):        # two modules under src/: the build runs in src/app
+            write_tree(d, self.repl_embed if h.get("embed") else self.repl)
+            if h.get("replver"):
+                make_fake_proxy(os.path.join(d, "proxy"), {"v1.2.0": 21, "v1.3.0": 34})
+                open(os.path.join(d, "app", "go.mod"), "w").write(
+                    "module example.com/app\n\ngo 1.24\n\nrequire example.com/lib v1.0.0\n\nreplace example.com/lib v1.0.0 => %s v1.2.0\n" % FORK)
+                dl = os.path.join(vlib.sh(["go", "env", "GOMODCACHE"], env=vlib.goenv())[1].strip(), "cache", "download")
+                h = dict(h)
+                h["cfg0"] = dict(env={"GOPROXY": "file://%s,file://%s" % (os.path.join(d, "proxy"), dl),
+                                      "GOMODCACHE": os.path.join(self.ck.work, "hist", name, "modcache"), "GONOSUMDB": "*", "GOFLAGS": "-mod=mod -modcacherw"})
+            d = os.path.join(d, "app")
+        else:
+            e2e.write_module(d, self.files_embed if h.get("embed") else self.files)
         cache = os.path.join(self.ck.work, "hist", name, "cache")
         self.fresh_cache(cache)
         cfg = Cfg(**(h.get("cfg0") or {}))
         drv = bool(h.get("driver"))
-        res = {"name": name, "kind": h["kind"], "trace": [], "stale": False, "error": None, "effects": [], "hits": []}
+        res = {"name": name, "kind": h["kind"], "trace": [], "stale": False, "error": None, "effects": [], "hits": [], "not_missed": []}
         nb, last_obs, first_build = 0, None, True
         pending_edit = False
         for st in h["steps"]:
@@ -363,12 +523,17 @@ class Runner:
                 res["hits"].append(hits)
                 entry = {"build": cfg.desc(), "cache_hit": hits, "cache_miss": miss, "observed": obs}
                 if not first_build:
-                    # same sources, no cache entry of the module
+                    # clean build: the same sources (contents and mtimes) copied to a fresh directory, and a cache with no
+                    # entry of the module - nothing an earlier build left behind anywhere (llgo cache, objects written next
+                    # to the Go export files, ...) can be picked up, because all of it is keyed by the source directory
                     ccache = os.path.join(self.ck.work, "hist", name, "clean%d" % nb)
                     self.fresh_cache(ccache)
+                    croot = os.path.join(self.ck.work, "hist", name, "srcclean%d" % nb)
+                    shutil.copytree(root, croot, symlinks=True)
                     cout = out + ".clean"
-                    rc2, log2, _, _ = self.build(d, cout, cfg, ccache, drv)
+                    rc2, log2, _, _ = self.build(os.path.join(croot, os.path.relpath(d, root)), cout, cfg, ccache, drv)
                     shutil.rmtree(ccache, ignore_errors=True)
+                    shutil.rmtree(croot, ignore_errors=True)
                     if rc2 != 0:
                         res["error"] = "clean build %d failed: %s" % (nb, log2[-1200:])
                         return res
@@ -379,6 +544,11 @@ class Runner:
                         entry["STALE"] = True
                     if pending_edit:
                         res["effects"].append(last_obs is not None and cobs != last_obs)
+                        # manifest-level oracle: every importer of the edited (mutable) package is re-fingerprinted
+                        bad = [p for p in (h.get("must_miss") or []) if p not in miss]
+                        if bad:
+                            res["not_missed"] += bad
+                            entry["IMPORTER_NOT_REBUILT"] = bad
                     last_obs = cobs
                 else:
                     last_obs = obs
@@ -396,12 +566,16 @@ def run(ck):
     ck.trusted = ["Coq 8.16.1 kernel (coqc, vm_compute)",
                   "props/C13/harness/extract (go/ast fact extractor) and the facts->kinds table in props/C13/check.py",
                   "props/C13/harness/c13drv (driver around internal/build.Do for -X and per-package IR)",
+                  "the stand-in for golang.org/x/tools/go/packages.Module against which moduleVersion's source text is compiled and run",
                   "e2e shims (LLVM 14, GNU ld); hand-written model coq/theories/C13/Model.v tied by predicted-vs-observed staleness"]
     ck.assumptions = ["sha256 of the rendered manifest is collision free (Section hypothesis digest_inj)",
                       "the YAML rendering of distinct manifests is distinct (not modelled)",
                       "the compiler depends only on the listed kinds of a package and of its transitive imports (hypothesis compile_ext); "
                       "every kind is treated as relevant to every package",
+                      "sources stored in the module cache under a version do not change (immutable modules are identified by id and version)",
                       "emission order determinism has no model: observed on repeated clean builds only",
+                      "a cache miss compiles the package from the current inputs only (Model.build_one: compile t); state an earlier build left outside "
+                      "the llgo cache is not part of the model - checked by the clean-copy oracle and the clfile_always_compiles fact",
                       "LLGO_PLAN9ASM_PKGS (debug override) and LLGO_BUILD_CACHE are taken as not needed in the manifest"]
     ck.coq_build("C13")
     ck.coq_props("LLGoV.C13.Props", "theories/C13/Props.v")
@@ -418,21 +592,76 @@ def run(ck):
     files, vals = gen_module(ck.rng)
     files_embed, _ = gen_module(ck.rng, embed=True, v=vals)
     hs = histories(vals, ck.tier)
+    hs["transitive-dep"]["must_miss"] = ["verifprog/a", "verifprog/b"]
+    repl_files, rvals = gen_repl_modules(ck.rng)
+    repl_files_embed, _ = gen_repl_modules(random_like(ck.rng, rvals), embed=True)
+    hs.update(repl_histories(rvals, ck.tier))
+    only = os.environ.get("VERIF_C13_ONLY")      # debugging aid: regex on history names (skips the repeated clean builds)
+    if only:
+        hs = {n: h for n, h in hs.items() if re.search(only, n)}
     names = list(hs)
+    mnames = [n for n in names if hs[n].get("model")]
+
+    # moduleVersion: run the function itself on the module shapes of Model.modst
+    MV, mverr = run_module_version(ck, F)
+    guard = F.get("dep_version_guard") or ""
+    guard_ok = all(x in guard for x in ("moduleVersion(dep.Module)", 'v != ""', "entry.Version = v", "return entry"))
+    if MV is None or not guard_ok:
+        ck.correspondence_broken("C13.Model/moduleVersion", mverr or ("dependencyFingerprint no longer has the shape "
+                                 "`if v := moduleVersion(dep.Module); v != \"\" { entry.Version = v; return }`: " + guard))
+        return ck.finish()
+    gen_pol = MV.get("repldir", "") != ""
+    pol = "true" if gen_pol else "false"
     known_kinds = [k for k in ALL_KINDS if KEYS[k] in ck.known]
     text = "From LLGoV Require Import C13.Model.\nLocal Open Scope N_scope.\n"
     text += "Definition gen_manifest_kinds : list kind := %s.\n" % coq_kinds(gen)
     text += "Definition U := Eval vm_compute in uncovered gen_manifest_kinds (KDeps :: relevant_kinds).\nPrint U.\n"
-    text += "Definition hs : list (module * list step) := [\n" + ";\n".join("(e2e_module, %s)" % hs[n]["model"] for n in names) + "].\n"
-    text += "Definition S := Eval vm_compute in map (stale gen_manifest_kinds) hs.\nPrint S.\n"
+    text += "Definition hs : list (module * list step) := [\n" + ";\n".join("(%s, %s)" % (hs[n].get("module", "e2e_module"), hs[n]["model"]) for n in mnames) + "].\n"
+    text += "Definition S : list bool := Eval vm_compute in map (stale_pol %s gen_manifest_kinds) hs.\nPrint S.\n" % pol
+    text += "Definition P := Eval vm_compute in map (module_version false) %s.\nPrint P.\n" % coq_kinds([c[2] for c in MODVER_CASES if c[2]])
+    impl = [n for n in names if hs[n].get("edit")]
+    text += "Definition RF : list bool := Eval vm_compute in %s.\nPrint RF.\n" % coq_kinds(
+        ["refingerprints %s gen_manifest_kinds %s (%s) %d" % (pol, hs[n]["module"], hs[n]["edit"], hs[n]["importer"]) for n in impl])
     rc, out = ck.coq_run(text, "c13_gen")
     mU = re.search(r"U\s*=\s*\[(.*?)\]\s*:", out, re.S)
     mS = re.search(r"S\s*=\s*\[(.*?)\]\s*:", out, re.S)
     if rc != 0 or not mU or not mS:
         ck.correspondence_broken("generated-manifest-kinds", out[-1500:])
         return ck.finish()
+    mP = re.search(r"P\s*=\s*\[(.*?)\]\s*:", out, re.S)
+    mRF = re.search(r"RF\s*=\s*\[(.*?)\]\s*:", out, re.S)
+    if not mP or not mRF:
+        ck.correspondence_broken("generated-module-policy", out[-1500:])
+        return ck.finish()
+    model_pol = [None if x.strip() == "None" else int(re.sub(r"\D", "", x)) for x in mP.group(1).split(";")]
+    real_pol = [VERNUM.get(MV.get(c[0], "?"), "?") for c in MODVER_CASES if c[2]]
+    pol_cases = [c[0] for c in MODVER_CASES if c[2]]
+    pol_diff = [(c, MV.get(c), m) for c, r, m in zip(pol_cases, real_pol, model_pol) if r != m]
+    if MV.get("nil", "") != "":
+        pol_diff.append(("nil", MV.get("nil"), None))
+    refp_pred = dict(zip(impl, [x.strip() == "true" for x in mRF.group(1).split(";")]))
+    ck.log("moduleVersion on the model's module shapes:", json.dumps(MV, sort_keys=True))
+    ck.cov["module_version"] = MV
+    text4 = ("From LLGoV Require Import C13.Model.\nLemma module_version_policy_now : forall s, module_version %s s = "
+             "if immutable s then Some (mver s) else None.\nProof. destruct s; reflexivity. Qed.\n" % pol)
+    rc4, out4 = ck.coq_run(text4, "c13_policy")
+    ck.obligations.append(("module_version_policy_now", rc4 == 0 and not pol_diff,
+                           "generated: collect.go moduleVersion, run on %d module shapes, is Model.module_version false "
+                           "(a version exactly for immutable modules): %s" % (len(MODVER_CASES), json.dumps(MV, sort_keys=True))))
+    clfile_ok = F.get("clfile_early_returns", 1) == 0 and F.get("clfile_compile_calls", 0) >= 1
+    ck.obligations.append(("clfile_always_compiles", clfile_ok,
+                           "generated: build.go clFile has no early return before compiling the C side file (a cache miss compiles from the "
+                           "current sources and flags; nothing left by an earlier build is reused): returns=%s compile calls=%s"
+                           % (F.get("clfile_early_returns"), F.get("clfile_compile_calls"))))
+    policy_viol = None
+    if gen_pol:
+        policy_viol = ("moduleVersion returns %r for a module replaced by a local directory: its importers record only that version "
+                       "(premise of cache_sound fails; Props.dir_replace_by_version_refuted)" % MV.get("repldir"))
+    others = [d for d in pol_diff if d[0] != "repldir"]
+    if others:
+        ck.correspondence_broken("C13.Model/moduleVersion", {"differs (case, real, model)": others, "real": MV})
     uncovered = [x.strip() for x in mU.group(1).split(";") if x.strip()]
-    predicted = dict(zip(names, [x.strip() == "true" for x in mS.group(1).split(";")]))
+    predicted = dict(zip(mnames, [x.strip() == "true" for x in mS.group(1).split(";")]))
     # the obligation proper: covers modulo the kinds recorded as known findings
     text2 = "From LLGoV Require Import C13.Model.\n"
     text2 += "Definition gen_manifest_kinds : list kind := %s.\n" % coq_kinds(gen)
@@ -480,7 +709,7 @@ def run(ck):
     e2e.write_module(sd, {"main.go": 'package main\n\nfunc main() { println("seed") }\n'}, modname="seedprog")
     sde = os.path.join(ck.work, "seedembed")
     e2e.write_module(sde, {"main.go": 'package main\n\nimport _ "embed"\n\nfunc main() { println("seed") }\n'}, modname="seedembed")
-    R0 = Runner(ck, L, drv, files, files_embed, None)
+    R0 = Runner(ck, L, drv, files, files_embed, None, repl_files, repl_files_embed)
     seed_cfgs = [(Cfg(), False, sd), (Cfg(), False, sde), (Cfg(tags="vtag"), False, sd), (Cfg(opt="1"), False, sd),
                  (Cfg(env={"LLGO_TRACE": "1"}), False, sd), (Cfg(), True, sd), (Cfg(), True, sde)]
     if ck.tier != "quick":
@@ -495,10 +724,10 @@ def run(ck):
         if rc != 0:
             ck.log("seed build failed for", cfg.desc(), log[-600:])
     ck.phase("seed caches built")
-    R = Runner(ck, L, drv, files, files_embed, seed)
+    R = Runner(ck, L, drv, files, files_embed, seed, repl_files, repl_files_embed)
 
     # ---------------- determinism: per-package IR of repeated clean builds
-    nrep = 3 if ck.tier == "quick" else 6
+    nrep = 0 if only else (3 if ck.tier == "quick" else 6)
     dd = os.path.join(ck.work, "det", "src")
     e2e.write_module(dd, files_embed)
 
@@ -535,19 +764,35 @@ def run(ck):
             any_hit = True
         if r["effects"] and all(r["effects"]):
             nontrivial += 1
-        elif not r["stale"]:
+        elif not r["stale"] and not hs[n].get("output_blind"):
             ck.correspondence_broken("history-vacuous:" + n, "an edit of this history has no observable effect on a clean build: %s" % json.dumps(r["trace"])[:600])
-        replay = {"history": n, "kind": kind, "module": files_embed if hs[n].get("embed") else files, "trace": r["trace"],
+        hfiles = ((repl_files_embed if hs[n].get("embed") else repl_files) if hs[n].get("repl")
+                  else (files_embed if hs[n].get("embed") else files))
+        replay = {"history": n, "kind": kind, "module": hfiles, "build_dir": "app" if hs[n].get("repl") else ".", "trace": r["trace"],
                   "how": "write the module, then follow trace: llgo build -O<n> [-tags t] -o prog . with XDG_CACHE_HOME private and the "
-                         "listed environment; 'clean' is the same build with a cache holding no entry of the module"}
+                         "listed environment; 'clean' is the same build of a copy (cp -a) of the sources in a fresh directory with a cache "
+                         "holding no entry of the module"}
         if r["stale"]:
-            ck.violation(KEYS.get(kind, "cache-stale") if n in ("go-file", "build-tag", "x-rewrite", "embed-file", "llgofiles-c-file", "opt-level",
-                                                               "env-switch", "llgofiles-cflags-env", "transitive-dep", "same-size-mtime", "other-file")
+            ck.violation(hs[n]["key"] if hs[n].get("key") else KEYS.get(kind, "cache-stale") if n in ("go-file", "build-tag", "x-rewrite", "embed-file", "llgofiles-c-file", "opt-level",
+                                                               "env-switch", "llgofiles-cflags-env", "transitive-dep", "same-size-mtime", "other-file", "llgofiles-c-file-newer")
                          else "cache-stale-history-" + n,
                          "history %s: the cache-warm rebuild after the edit behaves differently from a clean build of the same sources "
                          "(confirmed end to end%s)" % (n, "; the manifest has no %s" % kind if kind in uncovered else ""), replay)
             static_viol.pop(kind, None)
-        if predicted.get(n) != r["stale"]:
+            if hs[n].get("repl"):
+                policy_viol = None
+        if r["not_missed"]:
+            ck.violation("cache-importer-hit-after-mutable-dep-edit",
+                         "history %s: after an edit of a mutable dependency its importer(s) %s were served from the cache (CACHE HIT): their "
+                         "manifest did not change (theorem mutable_dep_edit_changes_importers; model predicts re-fingerprinting: %s)"
+                         % (n, ",".join(sorted(set(r["not_missed"]))), refp_pred.get(n)), replay)
+            if hs[n].get("repl"):
+                policy_viol = None
+        if n in refp_pred and refp_pred[n] != (not r["not_missed"]):
+            ck.correspondence_broken("C13.Model/refingerprint:" + n,
+                                     {"model_predicts_importer_refingerprinted": refp_pred[n], "observed_importer_hits": r["not_missed"],
+                                      "moduleVersion": MV})
+        if n in predicted and predicted.get(n) != r["stale"] and not (hs[n].get("output_blind") and predicted.get(n)):
             ck.correspondence_broken("C13.Model/history:" + n,
                                      {"model_predicts_stale": predicted.get(n), "observed_stale": r["stale"], "manifest_kinds": gen,
                                       "trace": r["trace"]})
@@ -556,14 +801,22 @@ def run(ck):
             ck.correspondence_broken("cache-not-used-on-noop-rebuild", {"history": n, "hits": r["hits"]})
         if len(samples) < 3:
             samples.append({"history": n, "stale": r["stale"], "trace": [t if isinstance(t, str) else {k: t[k] for k in t if k in ("edit", "cache_hit", "STALE")} for t in r["trace"]]})
-    if not any_hit:
+    if not any_hit and not only:
         ck.correspondence_broken("cache-never-hit", "no warm rebuild reported CACHE HIT for a module package")
+    if not clfile_ok and not any(r["stale"] for r in results if r["name"].startswith("llgofiles-")):
+        ck.violation("llgofiles-object-reused-without-recompile",
+                     "build.go clFile can return without compiling the C side file (model assumption: a cache miss compiles from the current "
+                     "inputs); no end-to-end history went stale for it", {"clfile_early_returns": F.get("clfile_early_returns")})
+    if policy_viol:
+        ck.violation("cache-stale-dir-replaced-dep", policy_viol + "; no end-to-end history went stale for it", {"moduleVersion": MV})
     # uncovered kinds that no history exercised (or that did not go stale): static finding only
     for k, what in static_viol.items():
         ck.violation(KEYS[k], what + "; no end-to-end history went stale for it", {"manifest_kinds": gen, "uncovered": uncovered, "facts": os.path.join(ck.work, "manifest_facts.json"),
                                                                                 "extractor_notes": notes})
 
-    if any(d[0] is None for d in det):
+    if not det:
+        pass
+    elif any(d[0] is None for d in det):
         ck.correspondence_broken("determinism-build", [d[1][-600:] for d in det if d[0] is None][:1])
     else:
         ref = det[0][0]
@@ -578,7 +831,8 @@ def run(ck):
 
     ck.add_cov(evaluations=R.nbuilds + R0.nbuilds, nontrivial=nontrivial, samples=samples, classes=classes)
     ck.cov["predicted_stale"] = predicted
-    ck.cov["rule"] = ("one edit history per kind of build input over a generated module main->a->b->c (constants from the seed), each with a private "
+    ck.cov["rule"] = ("one edit history per kind of build input over a generated module main->a->b->c (constants from the seed) and over a two-module "
+                      "layout app(main->mid)->lib with lib replaced by a local directory, each with a private "
                       "XDG_CACHE_HOME: build, edit one input, warm rebuild, compare behaviour (exit code, stderr, trace lines) with a clean build; "
                       "evaluations = llgo builds run; distinct_nontrivial = histories whose every edit changed the clean build's behaviour; "
                       "model prediction (Coq) compared with observation per history; IR hashes of %d identical clean builds compared" % nrep)
